@@ -32,6 +32,12 @@ type c03H2Scenario struct {
 	ending   string // end-stream | rst | goaway | close | midframe | none-then-close-before-headers
 	frames   int    // number of DATA frames the sent bytes are split into
 	complete bool   // the exchange is a complete, consistent response
+	status   int    // response status (0 = 200)
+	head     bool   // the client sends HEAD
+	code     uint32 // error code of RST_STREAM / GOAWAY
+	lastAt   bool   // GOAWAY last-stream-id = this stream (else 0, below it)
+	finish   bool   // after GOAWAY(last = this stream): still send the rest with END_STREAM
+	retryOK  bool   // the client may legitimately have replayed the request (unprocessed stream)
 }
 
 type c03H2Peer struct {
@@ -134,13 +140,17 @@ func (p *c03H2Peer) serve(c net.Conn) {
 				return
 			}
 			hbuf.Reset()
-			enc.WriteField(hpack.HeaderField{Name: ":status", Value: "200"})
+			st := sc.status
+			if st == 0 {
+				st = 200
+			}
+			enc.WriteField(hpack.HeaderField{Name: ":status", Value: strconv.Itoa(st)})
 			enc.WriteField(hpack.HeaderField{Name: "content-type", Value: "application/octet-stream"})
 			if sc.declared >= 0 {
 				enc.WriteField(hpack.HeaderField{Name: "content-length", Value: strconv.Itoa(sc.declared)})
 			}
 			fr.WriteHeaders(xhttp2.HeadersFrameParam{StreamID: id, BlockFragment: hbuf.Bytes(), EndHeaders: true,
-				EndStream: sc.ending == "end-stream" && sc.send+sc.extra == 0})
+				EndStream: (sc.ending == "end-stream" || sc.ending == "end-stream-then-rst") && sc.send+sc.extra == 0})
 			payload := []byte(sc.body)[:sc.send]
 			payload = append(payload, bytes.Repeat([]byte("X"), sc.extra)...)
 			n := sc.frames
@@ -161,14 +171,26 @@ func (p *c03H2Peer) serve(c net.Conn) {
 					wmu.Unlock()
 					return
 				}
-				fr.WriteData(id, sc.ending == "end-stream" && last, payload[:k])
+				fr.WriteData(id, (sc.ending == "end-stream" || sc.ending == "end-stream-then-rst") && last, payload[:k])
 				payload = payload[k:]
 			}
 			switch sc.ending {
 			case "rst":
-				fr.WriteRSTStream(id, xhttp2.ErrCodeInternal)
+				fr.WriteRSTStream(id, xhttp2.ErrCode(sc.code))
+			case "end-stream-then-rst":
+				fr.WriteRSTStream(id, xhttp2.ErrCode(sc.code))
 			case "goaway":
-				fr.WriteGoAway(0, xhttp2.ErrCodeInternal, nil)
+				last := uint32(0)
+				if sc.lastAt {
+					last = id
+				}
+				fr.WriteGoAway(last, xhttp2.ErrCode(sc.code), nil)
+				if sc.finish {
+					rest := []byte(sc.body)[sc.send:]
+					fr.WriteData(id, true, rest)
+					wmu.Unlock()
+					continue
+				}
 				wmu.Unlock()
 				time.Sleep(20 * time.Millisecond)
 				return
@@ -184,8 +206,9 @@ func (p *c03H2Peer) serve(c net.Conn) {
 func TestVerif_C03_h2cut(t *testing.T) {
 	s := verifh.New(t, "C03", "h2cut",
 		"real client forced to HTTP/2 (cleartext, prior knowledge) against a frame-script peer: response HEADERS with/without content-length, the body split into 1-4 DATA frames, "+
-			"ended after a strict prefix of the body by RST_STREAM / GOAWAY / TCP close at a frame boundary / TCP close inside a DATA frame / END_STREAM before the declared length, "+
-			"or with more DATA than declared, or closed before HEADERS; complete responses as controls; then a second request on the same client. "+
+			"ended right after HEADERS or after a strict prefix of the body by RST_STREAM with every error code 0..13 (incl. NO_ERROR) / GOAWAY (NO_ERROR or error, last-stream-id below or at the stream) / TCP close at a frame boundary / TCP close inside a DATA frame / END_STREAM before the declared length, "+
+			"or with more DATA than declared, or closed before HEADERS; controls: complete responses, graceful GOAWAY(NO_ERROR) after which the response completes, RST_STREAM(NO_ERROR) after END_STREAM; "+
+			"first request under a caller mode (auto, streaming, body transformer, SetOutput, SetOutputFile, download callback, dump, non-matching retry); then a second request on the same client. "+
 			"Oracle: success implies a complete consistent response and the true body; the second request succeeds. non-trivial = fault injected")
 	r := s.Rand()
 	peer := newC03H2Peer(t)
@@ -194,61 +217,90 @@ func TestVerif_C03_h2cut(t *testing.T) {
 	n := verifh.N(250, 2500)
 	reached := map[string]int{}
 	failures := 0
+	tmpDir := t.TempDir()
+	rstSeq, goSeq := 0, 0
 	for i := 0; i < n && failures < 12; i++ {
 		body := verifh.RandBytes(r, 1+r.Intn(300), "abcdefghijklmnopqrstuvwxyz")
 		sc := c03H2Scenario{body: body, declared: len(body), send: len(body), frames: 1 + r.Intn(4), ending: "end-stream", complete: true}
 		if r.Intn(3) == 0 {
 			sc.declared = -1
 		}
-		kind := r.Intn(10)
-		switch kind {
+		// where the fault hits: right after HEADERS (no DATA yet) or after a strict prefix of the body
+		cutAt := func() int {
+			if r.Intn(3) == 0 {
+				return 0
+			}
+			return r.Intn(len(body))
+		}
+		allCodes := []uint32{0, 1, 2, 3, 4, 5, 6, 7, 8, 9, 10, 11, 12, 13}
+		switch r.Intn(14) {
 		case 0, 1: // control
 			sc.name = "complete"
-		case 2:
-			sc.name, sc.ending, sc.send, sc.complete = "rst", "rst", r.Intn(len(body)), false
-		case 3:
-			sc.name, sc.ending, sc.send, sc.complete = "goaway", "goaway", r.Intn(len(body)), false
-		case 4:
-			sc.name, sc.ending, sc.send, sc.complete = "tcp-close", "close", r.Intn(len(body)), false
-		case 5:
+			// controls without a body although a length is declared: HEAD, 204, 304
+			if r.Intn(4) == 0 {
+				sc.name, sc.head, sc.declared, sc.send = "complete-head-with-length", true, len(body), 0
+			}
+			// (no 304-with-length control on HTTP/2: like x/net/http2 the fork installs a
+			// "missing body" for END_STREAM on HEADERS with Content-Length > 0, so reading it
+			// yields unexpected EOF — over-strict, not a truncation reported as success)
+		case 2, 3, 4: // RST_STREAM with EVERY error code, incl. NO_ERROR, mid-body or after headers only
+			sc.ending, sc.send, sc.complete, sc.code = "rst", cutAt(), false, allCodes[rstSeq%len(allCodes)]
+			rstSeq++
+			if rstSeq%3 == 0 {
+				sc.code = 0
+			}
+			sc.name = "rst-code-" + strconv.Itoa(int(sc.code))
+		case 5: // GOAWAY (NO_ERROR or an error) with last-stream-id below / at the stream, then TCP close
+			sc.ending, sc.send, sc.complete = "goaway", cutAt(), false
+			sc.code = []uint32{0, 0, 2, 11}[goSeq%4]
+			sc.lastAt = (goSeq/4)%2 == 0
+			goSeq++
+			sc.name = "goaway-code-" + strconv.Itoa(int(sc.code)) + map[bool]string{true: "-last-at", false: "-last-below"}[sc.lastAt]
+			// a stream above last-stream-id was not processed: the client may replay the request
+			sc.retryOK = !sc.lastAt
+		case 6: // graceful shutdown: GOAWAY(NO_ERROR, last = this stream), the response still completes
+			sc.name, sc.ending, sc.send, sc.code, sc.lastAt, sc.finish = "goaway-graceful-complete", "goaway", cutAt(), 0, true, true
+		case 7:
+			sc.name, sc.ending, sc.send, sc.complete = "tcp-close", "close", cutAt(), false
+		case 8:
 			sc.name, sc.ending, sc.send, sc.complete = "midframe", "midframe", 2+r.Intn(len(body)), false
 			if sc.send > len(body) {
 				sc.send = len(body)
 			}
-		case 6: // END_STREAM before the declared length
+		case 9: // END_STREAM before the declared length
 			sc.name, sc.declared, sc.send, sc.complete = "short-end-stream", len(body), r.Intn(len(body)), false
-		case 7: // more DATA than declared
+		case 10: // more DATA than declared
 			sc.name, sc.declared, sc.extra, sc.complete = "overlong", len(body), 1+r.Intn(20), false
-		case 8:
+		case 11:
 			sc.name, sc.ending, sc.complete = "close-before-headers", "close-before-headers", false
-		case 9: // complete body but the stream is reset instead of END_STREAM
-			sc.name, sc.ending, sc.complete = "rst-after-full-body", "rst", false
+		case 12: // complete body but the stream is reset (any code) instead of END_STREAM
+			sc.name, sc.ending, sc.complete, sc.code = "rst-after-full-body", "rst", false, verifh.Pick(r, []uint32{0, 0, 2, 8})
+		case 13: // control: END_STREAM, THEN RST_STREAM(NO_ERROR) (RFC 9113 8.1: "stop uploading")
+			sc.name, sc.ending, sc.code = "rst-noerror-after-end-stream", "end-stream-then-rst", 0
 		}
 		peer.reset([]c03H2Scenario{sc})
-		c := C().EnableForceHTTP2().EnableH2C().DisableAutoDecode().SetTimeout(10 * time.Second)
-		stream := r.Intn(3) == 0
+		c := C().EnableForceHTTP2().EnableH2C().SetTimeout(10 * time.Second)
+		stream := r.Intn(4) == 0
+		cc := &c03Caller{mode: c03PickMode(r, "", "", 0), dir: tmpDir}
 		if stream {
-			c.DisableAutoReadResponse()
+			c.DisableAutoReadResponse().DisableAutoDecode()
+		} else {
+			cc.prepClient(c)
 		}
-		first, ferr := "fail", ""
-		resp, err := c.R().Get(url)
-		if err == nil && resp != nil && resp.Response != nil {
-			if stream {
-				b, rerr := io.ReadAll(resp.Body)
-				resp.Body.Close()
-				if rerr == nil {
-					first = "ok body=" + string(b)
-				} else {
-					ferr = "body read: " + rerr.Error()
-				}
-			} else if resp.Err == nil {
-				first = "ok body=" + string(resp.Bytes())
-			} else {
-				ferr = resp.Err.Error()
-			}
-		} else if err != nil {
-			ferr = err.Error()
+		method := "GET"
+		if sc.head {
+			method = "HEAD"
 		}
+		want := body
+		if sc.head || sc.status == 304 {
+			want = ""
+		}
+		first, ferr := c03DoFirstM(c, method, url, stream, cc)
+		callerName := cc.name()
+		if stream {
+			callerName = "stream"
+		}
+		s.Count("caller:" + callerName)
 		second, err2 := c.R().Get(url)
 		secondOK := err2 == nil && second != nil && second.Response != nil
 		if secondOK {
@@ -263,9 +315,12 @@ func TestVerif_C03_h2cut(t *testing.T) {
 		c.GetTransport().CloseIdleConnections()
 		ok, why := true, ""
 		if strings.HasPrefix(first, "ok") {
-			if !sc.complete {
+			if sc.retryOK && first == "ok body="+c03Second {
+				// the unprocessed request was replayed on a new connection: a complete response
+				s.Count("replayed-after-goaway")
+			} else if !sc.complete {
 				ok, why = false, "incomplete/inconsistent HTTP/2 response reported as success: "+c04Short(first)
-			} else if first != "ok body="+body {
+			} else if first != "ok body="+want {
 				ok, why = false, "body differs from the true body"
 			}
 			reached["ok"]++
@@ -287,8 +342,8 @@ func TestVerif_C03_h2cut(t *testing.T) {
 		}
 		reached[sc.name]++
 		s.Count("scenario:" + sc.name)
-		human := fmt.Sprintf("h2 %s declared=%d body=%d sent=%d extra=%d frames=%d stream-caller=%v -> %s (%s) second-ok=%v dials=%d",
-			sc.name, sc.declared, len(body), sc.send, sc.extra, sc.frames, stream, c04Short(first), ferr, secondOK, peer.dials())
+		human := fmt.Sprintf("h2 %s declared=%d body=%d sent=%d extra=%d frames=%d caller=%s -> %s (%s) second-ok=%v dials=%d",
+			sc.name, sc.declared, len(body), sc.send, sc.extra, sc.frames, callerName, c04Short(first), ferr, secondOK, peer.dials())
 		if why != "" {
 			human += " ORACLE: " + why
 		}
@@ -298,7 +353,7 @@ func TestVerif_C03_h2cut(t *testing.T) {
 	if failures >= 12 {
 		return
 	}
-	for _, need := range []string{"ok", "fail", "complete", "rst", "goaway", "tcp-close", "midframe", "short-end-stream", "overlong", "close-before-headers"} {
+	for _, need := range []string{"ok", "fail", "complete", "complete-head-with-length", "rst-code-0", "rst-code-8", "goaway-code-0-last-at", "goaway-code-0-last-below", "goaway-graceful-complete", "rst-noerror-after-end-stream", "tcp-close", "midframe", "short-end-stream", "overlong", "close-before-headers"} {
 		if reached[need] == 0 {
 			t.Errorf("C03/h2cut never reached %q", need)
 		}
